@@ -167,6 +167,8 @@ def clientCase (hdr : String) (lines : List String) : List String :=
       let dM := mStr.filter isDone
       let doneEarly := hasEndCall && (match dI, dM with
         | [(ti, si)], [(tm, sm)] => si == sm && ti < tm && retTimes.contains ti
+        -- (the same race when the model's later instant — the next read deadline — lies beyond the end of the case)
+        | [(ti, _)], [] => retTimes.contains ti
         | _, _ => false)
       let iNorm := if doneEarly then iNorm.filter (!isDone ·) else iNorm
       let mStr := if doneEarly then mStr.filter (!isDone ·) else mStr
